@@ -193,6 +193,7 @@ def St.burst (s : St) (calls : List String) : St × String :=
   host <id> <addr> <dc> <rack> <tokens|->          define a HostInfo object (state UP)
   hostp <id> <hostid> <addr> <port> <dc> <rack> <tokens|->   the same with an explicit host id and native port
   add|remove|hup|hdown <id>                        AddHost / RemoveHost / HostUp / HostDown → snapshot of the lists
+  addhosts <id,id,...>                             AddHosts([...]) (token-aware policy; AddHost per host otherwise: Session.init)
   state <id> <1|0>                                 setState(NodeUp|NodeDown); ends the life of all iterators
   repl <ks> <tok>:<ids> ...                        install the replica table of a keyspace (hook)
   pick <ks|-> <tok|-> <limit> <perm;perm;...|->    Pick + up to <limit> iterator calls → ids offered
@@ -225,6 +226,14 @@ def step (s : St) (ws : List String) : St × String :=
   | ["ksmeta", ks, v] =>
     let m : Option (Option Nat) := if v == "none" then none else if v == "local" then some none else some (some (nat v))
     (bump { s with t := s.t.setMeta (nat ks) m }, "ok")
+  | ["addhosts", idl] =>
+    let hs := (natList idl).filterMap s.host?
+    if s.alias || hs.isEmpty || hs.length != (natList idl).length then (s, "bad-op") else
+    let t' : TA := if s.isTA then s.t.addHosts hs else { s.t with pol := hs.foldl Pol.add s.t.pol }
+    let s' := bump { s with t := t', evs := (hs.map (fun h => (Ev.add, h))).reverse ++ s.evs,
+                            taint := s.taint.filter (fun i => !(natList idl).contains i),
+                            inj := if s.isTA then [] else s.inj }
+    (s', snapshot s')
   | ["kschg", ks] =>
     (bump { s with t := if s.isTA then s.t.keyspaceChanged (nat ks) else s.t, inj := s.inj.filter (· != nat ks) }, "ok")
   | ["table", ks] =>
